@@ -477,6 +477,10 @@ func (w *streamingResponseWriter) WriteHeader(status int) {
 	}
 
 	// Filter out hop-by-hop headers.
+	//
+	// The filtered copy belongs to the streamed response, which is serialized by
+	// another goroutine; `w.header` remains the map that the handler keeps using
+	// (for instance to set trailer values after writing the body).
 	header := make(http.Header)
 	for k, vs := range w.Header() {
 		if _, ok := hopHeaders[k]; ok {
@@ -488,7 +492,14 @@ func (w *streamingResponseWriter) WriteHeader(status int) {
 			header.Add(k, v)
 		}
 	}
-	w.header = header
+
+	// Likewise the response gets its own trailer map, holding the pre-declared keys.
+	// The values collected by `Close` are copied into it by the reader of the response
+	// body when it reaches EOF (i.e. after `Close` has finished with `w.trailer`).
+	respTrailer := make(http.Header)
+	for k := range w.trailer {
+		respTrailer[k] = nil
+	}
 
 	// Take the protocol version information for the response from the corresponding request.
 	proto := "HTTP/1.1"
@@ -505,15 +516,34 @@ func (w *streamingResponseWriter) WriteHeader(status int) {
 		ProtoMinor: protoMinor,
 		StatusCode: status,
 		Status:     http.StatusText(status),
-		Header:     w.header,
-		Body:       w.bodyReader,
-		Trailer:    w.trailer,
+		Header:     header,
+		Body:       &trailerPublishingBody{ReadCloser: w.bodyReader, from: w.trailer, to: respTrailer},
+		Trailer:    respTrailer,
 	}
 	select {
 	case w.respChan <- resp:
 	case <-w.r.Context().Done():
 		w.bodyReader.Close()
 	}
+}
+
+// trailerPublishingBody is the body of a streamed response. When the reader hits EOF
+// (which happens after the writer's `Close` has returned from closing the pipe) it
+// copies the final trailer values into the response's own trailer map.
+type trailerPublishingBody struct {
+	io.ReadCloser
+	from http.Header
+	to   http.Header
+}
+
+func (b *trailerPublishingBody) Read(p []byte) (int, error) {
+	n, err := b.ReadCloser.Read(p)
+	if err == io.EOF {
+		for k, vs := range b.from {
+			b.to[k] = append([]string(nil), vs...)
+		}
+	}
+	return n, err
 }
 
 func (w *streamingResponseWriter) Write(bs []byte) (int, error) {
